@@ -10,7 +10,19 @@ use crate::Tier;
 use serde_json::json;
 use std::panic::{catch_unwind, AssertUnwindSafe};
 
-const HEADS: &[&[u8]] = &[b"", b"id", b"id desc", b" lead", b"a  b ", b"x>y", b"\xffz \xc3", b"id d e", b"a\tb c\x0bd", b"id ", b" ", b"a  ", b"a\rb", b"id left\rright end", b"\rx"];
+const FIXED_HEADS: &[&[u8]] = &[b"", b"id", b"id desc", b" lead", b"a  b ", b"x>y", b"\xffz \xc3", b"id d e", b"a\tb c\x0bd", b"id ", b" ", b"a  ", b"a\rb", b"id left\rright end", b"\rx"];
+
+/// the fixed headers plus ALL headers of up to 3 bytes over {space, TAB, CR, letter, non-UTF-8 byte}
+/// that a writer can be asked to write (no LF, not ending in CR)
+fn heads() -> Vec<Vec<u8>> {
+    let mut out: Vec<Vec<u8>> = FIXED_HEADS.iter().map(|h| h.to_vec()).collect();
+    for h in crate::c_inputs::head_menu(Tier::Quick) {
+        if h.last() != Some(&b'\r') && !out.contains(&h) {
+            out.push(h);
+        }
+    }
+    out
+}
 
 /// parse `out` with the reference model AND the real reader; both must give `want` (head, seq)
 fn parse_back_fasta(out: &[u8], want: &[(Vec<u8>, Vec<u8>)]) -> Result<(), String> {
@@ -107,6 +119,8 @@ fn chunkings_of(seq: &[u8]) -> Vec<Vec<Vec<u8>>> {
 
 pub fn c10(tier: Tier) -> i32 {
     use seq_io::fasta::{self, Record};
+    let heads_v = heads();
+    let heads_v = &heads_v;
     let maxn = if tier == Tier::Quick { 7 } else { 13 };
     // work items: (n, width)
     let mut items = vec![];
@@ -141,7 +155,8 @@ pub fn c10(tier: Tier) -> i32 {
         };
         let whole_wrapped = wv(&|o| fasta::write_wrap_seq(o, &seq, w));
         let whole_plain = wv(&|o| fasta::write_seq(o, &seq));
-        for (hi, head) in HEADS.iter().enumerate() {
+        for (hi, head) in heads_v.iter().enumerate() {
+            let head: &[u8] = &head[..];
             let want = vec![(head.to_vec(), seq.clone())];
             let mut parts = head.splitn(2, |b| *b == b' ');
             let id = parts.next().unwrap();
@@ -251,7 +266,7 @@ pub fn c10(tier: Tier) -> i32 {
         Report {
             property: "C10".into(),
             tier: tier.name().into(),
-            rule: format!("sequences = first n positional letters, n = 0..{}; every wrap width 1..n+2; {} headers (empty, spaces leading/trailing/multiple, '>' inside, non-UTF-8, CR inside / leading); entry points write_to, write_parts, write_wrap, write_head, write_id_desc, write_seq, write_wrap_seq, write_seq_iter, write_wrap_seq_iter, OwnedRecord::{{write,write_wrap}}, RefRecord::{{write,write_wrap}} (RefRecord parsed from every line splitting of the sequence, LF and CRLF); ALL 2^(n-1) compositions of the sequence into chunks, each also with 1-2 empty chunks inserted at every position; oracle: output parses back (reference parser and real reader) to (header, sequence), 2-3 records back to back parse to the list, wrapped lines <= width and all but the last = width, chunked output = whole output byte for byte (n >= 1); every call repeated into a writer that accepts only 1 or 3 bytes per write(): same bytes", maxn, HEADS.len()),
+            rule: format!("sequences = first n positional letters, n = 0..{}; every wrap width 1..n+2; {} headers (fixed menu: empty, spaces leading/trailing/multiple, '>' inside, non-UTF-8, CR inside / leading; plus ALL headers of <= 3 bytes over {{space, TAB, CR, letter, non-UTF-8 byte}} not ending in CR); entry points write_to, write_parts, write_wrap, write_head, write_id_desc, write_seq, write_wrap_seq, write_seq_iter, write_wrap_seq_iter, OwnedRecord::{{write,write_wrap}}, RefRecord::{{write,write_wrap}} (RefRecord parsed from every line splitting of the sequence, LF and CRLF); ALL 2^(n-1) compositions of the sequence into chunks, each also with 1-2 empty chunks inserted at every position; oracle: output parses back (reference parser and real reader) to (header, sequence), 2-3 records back to back parse to the list, wrapped lines <= width and all but the last = width, chunked output = whole output byte for byte (n >= 1); every call repeated into a writer that accepts only 1 or 3 bytes per write(): same bytes", maxn, heads_v.len()),
             exhaustive: true,
             assumptions: vec!["sequence bytes are positional letters (no LF, CR, '>'); the writers never inspect sequence bytes".into()],
             extra: json!({"states_note": "states = (sequence length, width, header, entry point, chunking) cases; transitions = writer calls"}),
@@ -314,9 +329,11 @@ pub fn c11(tier: Tier) -> i32 {
     use seq_io::fastq::{self, Record};
     // (a) writers
     let maxn = if tier == Tier::Quick { 4 } else { 12 };
-    let mut tot = par_sweep(HEADS.len() as u64 * (maxn as u64 + 1), 1, |idx, l| {
-        let head = HEADS[idx as usize % HEADS.len()];
-        let n = idx as usize / HEADS.len();
+    let heads_v = heads();
+    let heads_v = &heads_v;
+    let mut tot = par_sweep(heads_v.len() as u64 * (maxn as u64 + 1), 1, |idx, l| {
+        let head: &[u8] = &heads_v[idx as usize % heads_v.len()][..];
+        let n = idx as usize / heads_v.len();
         let seq: Vec<u8> = (0..n).map(filler).collect();
         let qual: Vec<u8> = (0..n).map(|i| filler(i + 7)).collect();
         let mut parts = head.splitn(2, |b| *b == b' ');
@@ -375,7 +392,7 @@ pub fn c11(tier: Tier) -> i32 {
                 replay: json!({"kind": "writer", "entry": "short-writes", "head": esc(head), "seq": esc(&seq), "qual": esc(&qual)}),
             });
         }
-        if n == 2 && idx as usize % HEADS.len() == 2 {
+        if n == 2 && idx as usize % heads_v.len() == 2 {
             l.samples.push(json!({"head": esc(head), "seq": esc(&seq), "qual": esc(&qual), "write_to": esc(&outs[0].1)}));
         }
     });
@@ -484,7 +501,7 @@ pub fn c11(tier: Tier) -> i32 {
         Report {
             property: "C11".into(),
             tier: tier.name().into(),
-            rule: format!("(a) fastq::write_to, write_parts, OwnedRecord::write, RefRecord::write (parsed from LF and CRLF input) over {} headers x equal-length sequence/quality of length 0..{} x 1-3 records back to back: parse-back (reference parser and real reader) equality, every call repeated into a writer accepting 1 or 3 bytes per write(); (b) every well-formed file of the record-shape family (LF/CRLF, final terminator present/absent, 0-2 trailing blank lines, FASTA 0/2 leading blank lines) under every capacity 3..len+2 and 64 KiB, via next() and via record sets: FASTQ concatenated write_unchanged = input with trailing blank lines dropped and a final terminator (byte exact); FASTA re-parses to identical records and equals the input after deleting blank lines and normalising the final terminator", HEADS.len(), maxn),
+            rule: format!("(a) fastq::write_to, write_parts, OwnedRecord::write, RefRecord::write (parsed from LF and CRLF input) over {} headers x equal-length sequence/quality of length 0..{} x 1-3 records back to back: parse-back (reference parser and real reader) equality, every call repeated into a writer accepting 1 or 3 bytes per write(); (b) every well-formed file of the record-shape family (LF/CRLF, final terminator present/absent, 0-2 trailing blank lines, FASTA 0/2 leading blank lines) under every capacity 3..len+2 and 64 KiB, via next() and via record sets: FASTQ concatenated write_unchanged = input with trailing blank lines dropped and a final terminator (byte exact); FASTA re-parses to identical records and equals the input after deleting blank lines and normalising the final terminator", heads_v.len(), maxn),
             exhaustive: true,
             assumptions: vec!["field contents free of CR/LF by construction".into()],
             extra: json!({"states_note": "states = cases (entry point x fields x count / file x capacity x access path); transitions = records written"}),
